@@ -645,7 +645,13 @@ class DCM(np.ndarray):
         S = self.A.T - self.A
         sin_theta = 0.5*np.sqrt(S[2, 1]**2 + S[0, 2]**2 + S[1, 0]**2)
         if sin_theta == 0.0:
-            return np.zeros((3, 3))
+            if self.A.trace() > 0.0:
+                return np.zeros((3, 3))
+            # Half-turn: R = 2*a*a^T - I is symmetric. Take the axis from (R+I)/2 = a*a^T
+            B = 0.5*(self.A + np.identity(3))
+            k = np.argmax(np.diag(B))
+            a = B[k]/np.sqrt(B[k, k])
+            return -np.pi*np.array([[0.0, -a[2], a[1]], [a[2], 0.0, -a[0]], [-a[1], a[0], 0.0]])
         theta = np.arctan2(sin_theta, (self.A.trace()-1)/2)
         nom = theta * S
         denom = 2*sin_theta
